@@ -183,6 +183,7 @@ pub fn stem(msg: &str) -> String {
     out
 }
 
+#[derive(Debug)]
 pub struct Panicked {
     pub loc: String,
     pub msg: String,
